@@ -342,6 +342,67 @@ pub fn run_step(ws: &Ws, step: &Value) -> Value {
             }
             out
         }
+        "session" => {
+            // several operations through ONE long-lived Archive handle (as a service using the library would), with
+            // operations of another client ("other": true -> a handle opened for that operation alone) and source changes
+            // in between.  Result: one entry per sub-operation.
+            let ops = step.get("ops").and_then(Value::as_array).cloned().unwrap_or_default();
+            let root = ws.root.clone();
+            let (mut out, r) = run_op(ws, plan, &runtime, |t, m| async move {
+                let held = Archive::open(t.clone()).await?;
+                let mut res = Vec::new();
+                for o in ops {
+                    let other = o.get("other").and_then(Value::as_bool).unwrap_or(false);
+                    let one = match o.get("op").and_then(Value::as_str).unwrap_or("") {
+                        "mktree" => {
+                            let path = root.join(o.get("path").and_then(Value::as_str).unwrap_or("src"));
+                            let node: std::result::Result<Node, _> = serde_json::from_value(o["tree"].clone());
+                            match node {
+                                Ok(n) => match tree::remove_all(&path).and_then(|_| tree::materialise(&path, &n)) {
+                                    Ok(()) => json!({"result": "ok"}),
+                                    Err(e) => json!({"result": "harness_error", "msg": format!("{e}")}),
+                                },
+                                Err(e) => json!({"result": "harness_error", "msg": format!("{e}")}),
+                            }
+                        }
+                        "backup" => {
+                            let src = root.join(o.get("src").and_then(Value::as_str).unwrap_or("src"));
+                            let optv = o.get("opts").cloned().unwrap_or(json!({}));
+                            let r = if other {
+                                do_backup(t.clone(), m.clone(), src, optv, None).await
+                            } else {
+                                match backup_options(&optv, None, &src) {
+                                    Ok(options) => backup(&held, &src, &options, m.clone()).await,
+                                    Err(e) => Err(e),
+                                }
+                            };
+                            match r {
+                                Ok(s) => json!({"result": "ok", "value": stats_json(&s)}),
+                                Err(e) => json!({"result": "err", "err": err_json(&e)}),
+                            }
+                        }
+                        "delete" => {
+                            let r = if other {
+                                do_delete(t.clone(), m.clone(), o.clone()).await
+                            } else {
+                                let ids: Vec<BandId> = o.get("bands").and_then(Value::as_array)
+                                    .map(|a| a.iter().filter_map(Value::as_u64).map(|n| BandId::from(n as u32)).collect()).unwrap_or_default();
+                                held.delete_bands(&ids, &DeleteOptions { dry_run: false, break_lock: false }, m.clone()).await.map(|s| json!({"deleted_block_count": s.deleted_block_count}))
+                            };
+                            match r {
+                                Ok(v) => json!({"result": "ok", "value": v}),
+                                Err(e) => json!({"result": "err", "err": err_json(&e)}),
+                            }
+                        }
+                        other_op => json!({"result": "harness_error", "msg": format!("unknown session op {other_op:?}")}),
+                    };
+                    res.push(one);
+                }
+                Ok::<Value, conserve::Error>(Value::Array(res))
+            });
+            res_json(&mut out, r, |v| v);
+            out
+        }
         "delete" => {
             let st = step.clone();
             let (mut out, r) = run_op(ws, plan, &runtime, |t, m| do_delete(t, m, st));
@@ -565,6 +626,12 @@ fn damage(root: &Path, step: &Value) -> Value {
             "write" => {
                 let d = hex::decode(step.get("hex").and_then(Value::as_str).unwrap_or("")).unwrap_or_default();
                 std::fs::write(&path, d)?
+            }
+            "write_hunk" => {
+                // an index hunk holding the given JSON (entries as the format stores them), Snappy-compressed
+                let v = step.get("json").cloned().unwrap_or(Value::Array(vec![]));
+                let d = serde_json::to_vec(&v).unwrap_or_default();
+                std::fs::write(&path, crate::reader::snap_compress(&d))?
             }
             "rmdir" => std::fs::remove_dir_all(&path)?,
             _ => {}
